@@ -62,7 +62,7 @@ StNO4 == {<<3, 2, 0, 1>>, <<0, 4, 0, 0>>}
 StIso3 == {<<3, 1, 0>>, <<0, 0, 2>>}
 StIso4 == {<<3, 0, 1, 2>>, <<0, 1, 0, 0>>}
 
-St5d == { v \in Box(5, 1) : VSum(v) \in 2..3 } \cup {<<3, 0, 1, 2, 0>>, <<0, 3, 2, 1, 1>>, <<2, 2, 0, 0, 3>>, <<1, 0, 3, 0, 2>>}
+St5d == { v \in Box(5, 1) : VSum(v) = 2 } \cup {<<3, 0, 1, 2, 0>>, <<0, 3, 2, 1, 1>>, <<2, 2, 0, 0, 3>>}
 StepsB == {<<1, 2>>, <<-1, 3>>}
 StepsA == {<<1, 2>>, <<-1, 3>>, <<2, 1>>}
 StepsNone == {}
